@@ -54,6 +54,21 @@ func (s *TCPServices) acquireTCPPort(port int) *TCPServicePort {
 	return tcpPort
 }
 
+// AddTLS assigns the TLS config of a hostname of an existing TCP port. It
+// reports false if the port does not exist or the hostname was already assigned.
+func (s *TCPServices) AddTLS(port int, tls *TCPServiceTLSConfig) bool {
+	tcpPort := s.items[port]
+	if tcpPort == nil {
+		return false
+	}
+	if _, found := tcpPort.TLS[tls.Hostname]; found {
+		return false
+	}
+	tcpPort.TLS[tls.Hostname] = tls
+	s.changed = true
+	return true
+}
+
 // FindTCPPort ...
 func (s *TCPServices) FindTCPPort(port int) *TCPServicePort {
 	return s.items[port]
@@ -104,6 +119,11 @@ func (s *TCPServices) RemoveService(service string) {
 		}
 		if hostname == DefaultHost {
 			item.defaultHost = nil
+			s.changed = true
+		}
+		if _, hasTLS := item.TLS[hostname]; hasTLS {
+			// whoever declares the certificate of the hostname is parsed again
+			delete(item.TLS, hostname)
 			s.changed = true
 		}
 		if item.isEmpty() {
